@@ -637,6 +637,15 @@ fn check_lists(c: &ListCase, obs: &mut Obs) -> Check {
         1 => Some(re::render::ctx::FaceCull::Back),
         _ => Some(re::render::ctx::FaceCull::Front),
     };
+    // DESIGN D-d: a face whose hull passes through (or has a vertex at) the clip-space apex x = y = z = w = 0 has no
+    // projection; no transform the library builds produces it (C02's "never panics" is stated on that domain too)
+    for f in &c.faces {
+        let t: [[f64; 4]; 3] = f.map(|i| fs(c.verts[i].0).map(|v| v as f64));
+        if t.iter().any(|v| v.iter().all(|x| *x == 0.0)) || apex_closeness(&t) < 0.05 {
+            obs.excluded("a face through the clip-space apex (D-d)");
+            return Ok(());
+        }
+    }
     let faces: Vec<Tri<usize>> = c.faces.iter().map(|f| Tri(*f)).collect();
     let run = |pad: usize| -> Result<(Vec<u32>, Vec<u32>, [usize; 7], f32), String> {
         let mut verts: Vec<Vertex<ClipVec, f32>> = c.verts.iter().map(|(p, a)| vertex(fs(*p).into(), a.0)).collect();
